@@ -78,6 +78,9 @@ pub fn generate(seed: u64, dir: &Path, big: bool, many: bool) -> Result<(), Stri
         format!("{}ウカカウ{}", key(&mut rng), key(&mut rng)),
         format!("abc-12{}漢漢ax-3b", key(&mut rng)),
         format!("{}{}{}", key(&mut rng), key(&mut rng), key(&mut rng)),
+        // characters whose NFKC form has several characters (one-to-many replacements in the normaliser): the same
+        // ones in every thread, met for the first time on this dictionary by all of them
+        format!("㍿㌔{}ﬁ㈱㌦№", key(&mut rng)),
     ];
     // a numeral with separators that this world's dictionary really joins into one token (homographs of the
     // digits can shadow the numeral reading): found by analysing candidates with the freshly built dictionary
